@@ -453,4 +453,16 @@ def run(facts, rep, tier, ctx):
                 k += 1
                 A.ob("R05.6", o["fn"], o["key"].split("|")[2], o["ok"], o["detail"], o["loc"])
         rep.floor("async-world observer obligations", k, 40)
+    # R05.3e the walk reports a directory it cannot list: an Err of read_dir that next() swallows (by kind, "skip what cannot be read")
+    # drops an existing directory and its whole subtree from the walk, which then ends as if complete (C20's consumer rows of next)
+    from . import c20 as _c20w
+    from ..report import Report as _Rp5w
+    for w5w in (ws, World(facts, True)):
+        if not w5w.present():
+            continue
+        scr5w = _Rp5w("w")
+        _c20w.run_world(facts, scr5w, w5w, {"results": 0, "err_edges": 0, "kind_arms": 0})
+        for o in scr5w.obligations:
+            if o["rule"] in ("R20.1", "R20.2", "R20.4") and "WalkDirIterator" in o["fn"]:
+                rep.ob(("A/" if w5w.asyncw else "") + "R05.3e/" + o["rule"], o["fn"], o["key"].split("|")[2], o["ok"], o["detail"], o["loc"])
     rep.assume("ordering inside one directory is unspecified")
